@@ -542,6 +542,24 @@ def render_system(desc, rd):
                             for k, l in enumerate(labels) if rd.r.random() < 0.5}
     system = RDSystem(network=net, space=space, units_system=UnitsSystem(**si.sys_dict(sysu)), **kw)
     rd.scribble()
+    # a copy is the same model: part of the time the system handed to the check is a copy of the one built, made in one of
+    # the ways the package offers (copy() of the system, copy.deepcopy, or a system rebuilt from copies of its parts)
+    how = rd.r.choice(["as built"] * 4 + ["copy()", "deepcopy", "rebuilt from copies of the parts", "parts copied one by one"])
+    rd.log["copy_variant"] = how
+    if how == "copy()":
+        system = system.copy()
+    elif how == "deepcopy":
+        system = copy.deepcopy(system)
+    elif how == "rebuilt from copies of the parts":
+        system = RDSystem(network=system.network.copy(), space=system.space.copy(), state=system.state.copy(),
+                          chemostats=list(system.chemostats), units_system=system.units_system.copy())
+    elif how == "parts copied one by one":
+        from strengths import RDNetwork
+        n0 = system.network
+        n1 = RDNetwork(species=[s_.copy() for s_ in n0.species], reactions=[x_.copy() for x_ in n0.reactions],
+                       environments=list(n0.environments), units_system=n0.units_system.copy())
+        system = RDSystem(network=n1, space=system.space.copy(), state=system.state.copy(), chemostats=list(system.chemostats),
+                          units_system=system.units_system.copy())
     return system
 
 
